@@ -1,6 +1,10 @@
 //! Deterministic simulation with fault injection for `udoprog/anything` — shared library.
 pub mod dirstate;
+pub mod exec;
+pub mod gen;
+pub mod history;
 pub mod plan;
 pub mod rng;
 pub mod script;
 pub mod shipped;
+pub mod shrink;
